@@ -4,6 +4,8 @@
  *       decsimp <hex>      both
  *       norm <flags> <hex>         burl_normalize        -> "rej" | "<qs> <hex>"
  *       target <flags> <sp> <hex>  http_request_parse_target -> "400" | "ok <target> <path> <query>"
+ *              sp: 0 = GET, 1 = CONNECT (target taken verbatim), 2 = HTTP/2 extended CONNECT (RFC 8441, has a :path:
+ *              parsed like any other request)
  */
 #include "first.h"
 #include "harness_common.h"
@@ -43,7 +45,7 @@ int main(void) {
             r->conf.http_parseopts = (unsigned int)atoi(ltv_tok[1]);
             int sp = atoi(ltv_tok[2]);
             r->http_method = sp ? HTTP_METHOD_CONNECT : HTTP_METHOD_GET;
-            r->h2_connect_ext = 0;
+            r->h2_connect_ext = (2 == sp);
             buffer_copy_string_len(&r->target, (char *)in, n);
             int rc = http_request_parse_target(r, 80);
             if (rc) printf("%d\n", rc);
